@@ -330,6 +330,22 @@ pub fn world_engine(prop: &str, thorough: bool) -> Option<WorldEngine> {
             oracle: |cx, _| counts::c15(cx),
             nontrivial: |cx, _| counts::nt_c15(cx),
         },
+        "C20" => WorldEngine {
+            prop: "C20",
+            profiles: vec![
+                (Profile::AnySingle, 25),
+                (Profile::Composed, 35),
+                (Profile::Share, 6),
+                (Profile::ShareNested, 6),
+                (Profile::ForEach, 8),
+                (Profile::Indep, 8),
+                (Profile::PullCount, 8),
+                (Profile::FromIterDirect, 4),
+            ],
+            max_steps,
+            oracle: |_, _| vec![],
+            nontrivial: |_, _| true,
+        },
         "SELF" => WorldEngine {
             prop: "SELF",
             profiles: vec![(Profile::SelfCheck, 1)],
